@@ -374,7 +374,17 @@ func (f simFactory) AssembleBlock(r basics.Round, _ []basics.Address) (agreement
 		return nil, agreement.ErrAssembleBlockRoundStale
 	}
 	prev, _ := lv.LookupDigest(r - 1)
-	return simBlock{b: bookkeeping.Block{BlockHeader: bookkeeping.BlockHeader{Round: r, Branch: bookkeeping.BlockHash(prev), TimeStamp: f.tag,
+	// every assembly yields a different block, as on a real node (new timestamp, other pool contents): a
+	// re-proposal after a bottom quorum must not coincide with the value of the period before
+	n := f.in.node
+	n.tmu.Lock()
+	if n.asmRound != r {
+		n.asmRound, n.asmCount = r, 0
+	}
+	ts := f.tag + 1000003*n.asmCount
+	n.asmCount++
+	n.tmu.Unlock()
+	return simBlock{b: bookkeeping.Block{BlockHeader: bookkeeping.BlockHeader{Round: r, Branch: bookkeeping.BlockHash(prev), TimeStamp: ts,
 		UpgradeState: bookkeeping.UpgradeState{CurrentProtocol: Proto}}}}, nil
 }
 
